@@ -148,6 +148,29 @@ _s("lossy", r"""
                     int(will_conversion_truncate(seconds(std::uint8_t{59}), minutes)));
 """)
 
+_s("conv_checks_constexpr", r"""
+        // the conversion checkers are documented as constexpr: used in constant expressions, with
+        // floating point reps and conversion factors below and above one, rational and irrational
+        constexpr auto sevenths = seconds * (mag<7>() / mag<3>());
+        constexpr auto pirad = radians * Magnitude<Pi>{};
+        constexpr bool down_d = will_conversion_overflow(seconds(1.0), sevenths);
+        constexpr bool up_d = will_conversion_overflow(sevenths(1.0), seconds);
+        constexpr bool down_f = will_conversion_overflow(seconds(1.0f), sevenths);
+        constexpr bool irr_down = will_conversion_overflow(radians(1.0), pirad);
+        constexpr bool irr_up = will_conversion_overflow(pirad(1.0), radians);
+        constexpr bool lossy = is_conversion_lossy(seconds(2.5), sevenths);
+        constexpr bool trunc = will_conversion_truncate(seconds(2.5), sevenths);
+        constexpr bool int_up = will_conversion_overflow(hours(std::int32_t{600000}), seconds);
+        constexpr bool int_rat = will_conversion_overflow(seconds(std::int32_t{2000000000}), seconds * (mag<3>() / mag<7>()));
+        constexpr bool kilo_no = will_conversion_overflow(kilo(seconds)(1.0e300), seconds);
+        constexpr bool kilo_yes = will_conversion_overflow(kilo(seconds)(1.0e306), seconds);
+        constexpr bool milli_no = will_conversion_overflow(seconds(1.0e306), kilo(seconds));
+        constexpr bool f_yes = will_conversion_overflow<float>(hours(1.0e36), seconds);
+        static_assert(!down_d && !irr_down, "scaling down cannot overflow");
+        std::printf("conv_checks_constexpr %d %d %d %d %d %d %d %d %d %d %d %d %d\n", int(down_d), int(up_d), int(down_f), int(irr_down), int(irr_up), int(lossy), int(trunc),
+                    int(int_up), int(int_rat), int(kilo_no), int(kilo_yes), int(milli_no), int(f_yes));
+""")
+
 _s("coerce", r"""
         std::printf("coerce %d %d %d %.17g\n", seconds(125).coerce_in(minutes), minutes(2).coerce_as(seconds).in(seconds),
                     int(minutes(std::uint8_t{5}).coerce_in<std::uint8_t>(seconds)), seconds(90).as<double>(minutes).in(minutes));
